@@ -256,3 +256,128 @@ def compare_full(projects, opts=""):
             rec["kind"] = "verdict-diff" if si != sm else "same"
         out.append(rec)
     return out
+
+
+# ---- the context rule of C06, written from the property text (independent of the Coq model) -------------
+ALLOWED_CTX = {
+    7: {8, 9, 10, 11, 12, 16, 22, 24, 25, 29},
+    8: {4, 14, 15, 16, 18, 22, 29}, 9: {4, 14, 15, 16, 18, 22, 29}, 10: {4, 14, 15, 16, 18, 22, 29},
+    11: {4, 14, 15, 16, 18, 22, 29}, 12: {4, 14, 15, 16, 18, 22, 29},
+    15: {13, 17, 22}, 14: {13, 17, 22}, 1: {2, 3, 4, 22}, 5: {6, 22}, 25: {4, 26, 27, 29}, 28: {4},
+    21: {1, 2, 3, 4, 5, 6, 7, 8, 9, 10, 11, 12, 13, 14, 15, 16, 17, 18, 19, 20, 22},
+}
+ROOT_CTX = {0, 1, 5, 7, 8, 9, 10, 11, 12, 19, 20, 21, 22, 28}
+HTTP_METHODS = {8, 9, 10, 11, 12}
+
+
+def spec_resolve(items):
+    """items: kind | 'P<kind>' | '(' | ')'.  Returns ('ok', parents) with parents[i] = index of the
+    parent directive (None = top level) for the i-th directive, or ('rejected', reason)."""
+    # lines consisting of a parenthesis right after a Description belong to its free text
+    norm = []
+    in_text = False
+    for it in items:
+        if in_text and it == "(":
+            continue            # text; a line starting with ')' ends the text AND closes a context
+        in_text = (it == 4)
+        norm.append(it)
+    items = norm
+    chain = []      # open enclosing directives, innermost last: [index, kind, explicit]
+    parents = []
+    n = -1
+    pending = None  # the directive just read: '(' marks IT
+    for it in items:
+        if it == "(":
+            if pending is None:
+                return ("rejected", "nodirective")
+            pending[2] = True
+            continue
+        if it == ")":
+            pending = None
+            while chain:
+                fr = chain.pop()
+                if fr[2]:
+                    break
+            else:
+                return ("rejected", "noexplicit")
+            continue
+        n += 1
+        path_method = isinstance(it, str) and it.startswith("P")
+        k = int(it[1:]) if path_method else it
+        pending = None
+        placed = False
+        while chain:
+            top = chain[-1]
+            if k in ALLOWED_CTX.get(top[1], set()):
+                if path_method and top[1] == 7:
+                    if any(fr[2] for fr in chain):
+                        return ("rejected", "incorrectcontextpath")
+                    chain = []
+                    parents.append(None)
+                else:
+                    parents.append(top[0])
+                placed = True
+                break
+            if top[2]:
+                return ("rejected", "incorrectcontext")
+            chain.pop()
+        if not placed:
+            if k not in ROOT_CTX:
+                return ("rejected", "incorrectcontext")
+            parents.append(None)
+        fr = [n, k, False]
+        chain.append(fr)
+        pending = fr
+    if any(fr[2] for fr in chain):
+        return ("rejected", "notallclosed")
+    return ("ok", parents)
+
+
+def forest_parents(forest):
+    """pre-order parent indices of a parsed forest (parse_forest output)"""
+    out = []
+
+    def walk(nodes, parent):
+        for d in nodes:
+            me = len(out)
+            out.append(parent)
+            walk(d["kids"], me)
+
+    walk(forest, None)
+    return out
+
+
+def gen_nested_items(rng, maxdepth=4, budget=14):
+    """structured generation: grows trees along the admissibility table, wraps some child groups in
+    explicit parentheses, and appends siblings after closed groups (the shapes random flat sequences miss)"""
+    items = [0]
+    left = [budget]
+
+    def grow(parent_kind, depth):
+        if left[0] <= 0:
+            return
+        cands = sorted(ALLOWED_CTX.get(parent_kind, set()) - {22}) if parent_kind is not None else [1, 5, 7, 8, 9, 19, 20, 28, 21]
+        if not cands:
+            return
+        nkids = rng.randint(0, 3 if depth < maxdepth else 0)
+        if nkids == 0:
+            return
+        explicit = parent_kind is not None and rng.random() < 0.45
+        if explicit:
+            items.append("(")
+        for _ in range(nkids):
+            if left[0] <= 0:
+                break
+            k = rng.choice(cands)
+            left[0] -= 1
+            if k in HTTP_METHODS and (parent_kind is None or (parent_kind == 7 and rng.random() < 0.15)):
+                items.append("P%d" % k)
+            else:
+                items.append(k)
+            grow(k, depth + 1)
+        if explicit:
+            items.append(")")
+
+    for _ in range(rng.randint(1, 4)):
+        grow(None, 0)
+    return items
